@@ -61,6 +61,23 @@ struct Val<trk::Tracked> {
     static long get(const trk::Tracked &x) { return x.magic == trk::Tracked::LIVE ? x.payload : -1000; }
 };
 
+// a trivially copyable element type whose equality is NOT equality of representation: two elements are equal when their
+// values are, whatever the tag says (a bounded deque compares elements with their operator==, as std::equal does)
+struct Weq {
+    int v;
+    int tag;
+    bool operator==(const Weq &o) const { return v == o.v; }
+};
+template <>
+struct Val<Weq> {
+    static Weq make(int v) { return Weq{v, 0}; }
+    static long get(const Weq &x) { return x.v; }
+};
+// an element that compares equal to x without being the same bytes where the type allows it
+template <class T>
+T twin(const T &x) { return x; }
+inline Weq twin(const Weq &x) { return Weq{x.v, x.tag ^ 0x5A5A}; }
+
 template <class RB>
 std::string observe(RB &rb) {
     using T = typename RB::value_type;
@@ -102,7 +119,7 @@ std::string observe(RB &rb) {
     {
         constexpr bool other_ow = !std::is_same_v<RB, tulz::RingBuffer<T, true>>;
         tulz::RingBuffer<T, other_ow> o(n + 2);
-        for (size_t i = 0; i < n; ++i) o.push_back(rb[i]);
+        for (size_t i = 0; i < n; ++i) o.push_back(twin(rb[i]));
         bool eq1 = (rb == o);
         o.push_back(Val<T>::make(77));
         bool eq2 = (rb == o);
@@ -265,6 +282,8 @@ void run_exec(const Execution &ex) {
         ow ? run_typed<std::vector<int>, true>(ex) : run_typed<std::vector<int>, false>(ex);
     else if (ty == "u8")
         ow ? run_typed<unsigned char, true>(ex) : run_typed<unsigned char, false>(ex);
+    else if (ty == "weq")
+        ow ? run_typed<Weq, true>(ex) : run_typed<Weq, false>(ex);
     else if (ty == "str")
         ow ? run_typed<std::string, true>(ex) : run_typed<std::string, false>(ex);
     else
